@@ -98,9 +98,11 @@ impl<'a> RegExp<'a> {
     }
 
     fn regex_matches_all_test_cases(regex: &Regex, test_cases: &[String]) -> bool {
-        test_cases
-            .iter()
-            .all(|test_case| regex.find_iter(test_case).count() == 1)
+        test_cases.iter().all(|test_case| {
+            regex
+                .find(test_case)
+                .is_some_and(|it| it.as_str() == test_case)
+        })
     }
 
     fn sort(test_cases: &mut Vec<String>) {
